@@ -229,7 +229,7 @@ func specResult(atoms []string, prompt string, keep bool) string {
 }
 
 func runC01Case(id string, c *c01Case) {
-	defer recoverCase(id, c)
+	defer watchCase(id, c)()
 	dev := &sim.CLIDevice{Prompt: []byte(c.Prompt), Trail: []byte(c.Trail), EOL: []byte(c.EOL),
 		Echo: sim.EchoStyle(c.Echo), WrapEvery: c.WrapEvery}
 	if c.Banner != "" {
